@@ -1468,6 +1468,28 @@ theorem esize_ne_zero_of_plain (t : Option Traits) (pt : PlainT t) : esize t ≠
   | none => simp [esize]
   | some x => simp only [esize]; exact (pt x ht).2.2
 
+theorem le_reserveLen (x : Buf) (len : Nat) (traits : Option Traits) : len ≤ reserveLen x len traits := by
+  unfold reserveLen
+  split
+  · exact Nat.le_max_left _ _
+  · exact Nat.le_refl _
+
+theorem reserveLen_mod (x : Buf) (len : Nat) (traits : Option Traits) (h : len % esize traits = 0) :
+    reserveLen x len traits % esize traits = 0 := by
+  unfold reserveLen
+  split
+  · rename_i c
+    rw [c.1]
+    have e : (x.used - x.used % esize traits) % esize traits = 0 := by
+      have := Nat.div_add_mod x.used (esize traits)
+      have e2 : x.used - x.used % esize traits = esize traits * (x.used / esize traits) := by omega
+      rw [e2]; exact Nat.mul_mod_right _ _
+    rw [Nat.max_def]
+    split
+    · exact e
+    · exact h
+  · exact h
+
 theorem reserve_sem {s : State} (inv : Inv s) {h : Nat} (hlt : h < s.hs.length) (n : Nat) (traits : Option Traits)
     (pt : PlainT traits) :
     Sem s h (fun v v' => v' = [] ∨ ∃ k, n ≤ k ∧ v' = v.take k) (arrayReserve s h n traits) := by
@@ -1490,7 +1512,7 @@ theorem reserve_sem {s : State} (inv : Inv s) {h : Nat} (hlt : h < s.hs.length) 
     rw [hb]
     simp only
     split
-    · exact reserveNew_shared_sem inv hh hb n _ nlen traits pt lal
+    · exact reserveNew_shared_sem inv hh hb n _ (Nat.le_trans nlen (le_reserveLen x _ traits)) traits pt (reserveLen_mod x _ traits lal)
     · rename_i priv
       simp only [not_or, Bool.not_eq_true] at priv
       exact reserveKeep_sem inv hh hb priv.1 n _ nlen traits pt
